@@ -275,7 +275,16 @@ async fn server_conn(app: App, conn: Connection, sc: Value) {
             while inner.join_next().await.is_some() {}
         });
     }
-    if sc["dgrams"].as_u64().unwrap_or(0) > 0 {
+    {
+        let (app, conn) = (app.clone(), conn.clone());
+        tasks.spawn(async move {
+            match conn.handshaked().await {
+                Ok(()) => app.ev("handshaked", 0, json!({})),
+                Err(e) => app.ev("err", 0, json!({"what": "handshaked", "msg": errs(&e)})),
+            }
+        });
+    }
+    if sc["dgrams"].as_u64().unwrap_or(0) > 0 || sc["dgram_reader"].as_bool().unwrap_or(false) {
         let (app, conn) = (app.clone(), conn.clone());
         tasks.spawn(async move {
             let mut reader = match conn.datagram_reader() {
@@ -317,6 +326,17 @@ async fn client_conn(app: App, conn: Connection, sc: Value) -> bool {
     let chunk_sz = sc["chunk"].as_u64().unwrap_or(4096).max(1);
     let bufsz = sc["cli_buf"].as_u64().unwrap_or(4096) as usize;
     let mut tasks = tokio::task::JoinSet::new();
+    {
+        // handshaked() is a pending operation like any other: it must complete (Ok or Err) when the connection ends
+        let (app, conn) = (app.clone(), conn.clone());
+        tasks.spawn(async move {
+            match conn.handshaked().await {
+                Ok(()) => app.ev("handshaked", 0, json!({})),
+                Err(e) => app.ev("err", 0, json!({"what": "handshaked", "msg": errs(&e)})),
+            }
+            true
+        });
+    }
     for i in 0..nbi {
         let (app, conn) = (app.clone(), conn.clone());
         let size = size + i * 37;
@@ -500,15 +520,6 @@ async fn run_scenario(sc: Value, log: Log) -> Value {
                     return false;
                 }
             };
-            {
-                let (c2, a2) = (conn.clone(), capp.clone());
-                tokio::spawn(async move {
-                    match c2.handshaked().await {
-                        Ok(()) => a2.ev("handshaked", 0, json!({})),
-                        Err(e) => a2.ev("err", 0, json!({"what": "handshaked", "msg": errs(&e)})),
-                    }
-                });
-            }
             {
                 if let Some(ms) = sc["close"]["cli"].as_u64() {
                     let (c2, a2) = (conn.clone(), capp.clone());
